@@ -80,6 +80,11 @@ fn template(k: u64, r: &str, l: &str) -> String {
     10 => format!("{{{}: 7, r: {}}}.r", l, r),
     11 => format!("for {} in [7] return {}", l, r),
     12 => format!("(function({}) {})(7)", l, r),
+    // the outer name read after a construct that declared the same name locally (the local declaration is over)
+    22 => format!("[for {} in [1] return 1, {}][2]", l, r),
+    23 => format!("[{{{}: 1}}, {}][2]", l, r),
+    24 => format!("[(function({}) 1)(0), {}][2]", l, r),
+    25 => format!("[some {} in [1] satisfies true, {}][2]", l, r),
     13 => format!("for {l} in [1, null, 3] return {l}", l = l),
     14 => format!("{{{l}: null, r: {l}}}.r", l = l),
     _ => format!("(function({l}) {l})(null)", l = l),
@@ -130,6 +135,10 @@ pub fn check(mut ctx: Ctx, replay: Option<J>) -> ! {
         recs.push(run_case(names, &parts, 0, &[]));
         if parts.len() > 1 {
           recs.push(run_case(names, &parts, [1, 2, 3, 4, 5, 6, 7, 8, 9, 20, 21][(k % 11) as usize], &[]));
+          // the first word, when it is itself a bound name, declared locally in a construct that has ended before
+          if names.as_array().unwrap().iter().any(|n| n["n"] == parts[0].as_str()) {
+            recs.push(run_case(names, &parts, 22 + (k % 4), &parts[..1]));
+          }
           k += 1;
         }
       }
